@@ -11,6 +11,7 @@ import (
 	"os/exec"
 	"path/filepath"
 	"sort"
+	"strconv"
 	"strings"
 	"time"
 
@@ -481,6 +482,36 @@ func checkC07(c *Ctx) {
 		for _, mk := range []string{"m = {1: 1, 2: V}; del(m[2])", "m = {1: 1, 2: 2, 3: V}; del(m[3]); del(m[2])", "m = {1: V, 2: 1}; del(m[1])", "m = [1, V][0:1]", "m = rest([V, 1])",
 			"m = {1: 1, 2: V}; m = rest(m)", `m = {"k": {1: 1, 2: V}}; del(m.k[2])`, "m = {1: 1, 2: 2, 3: 3, 4: 4, 5: V}; del(m[5])", "m = [{1: 1, 2: V}]; del(m[0][2])", "m = [V, 1, 2]; m = m[1:]"} {
 			add("shrunkarg", strings.ReplaceAll(mk, "V", v)+"; f = func(q) {len(q)}; println(f(m), f(m)); g = func(a, b) {a == b}; println(g(m, m)); println({m: 1}); println(m == m, m < m, json(m)); println(sort([m, m])); println(f([m]), f({1: m}))")
+		}
+	}
+	// 2g-n. every kind of statement run by a NESTED evaluator: the blank state of unjson(), eval() in the current scope, a macro
+	//      body (its own evaluator, its scope hangs off the macro store), defun; environments made for those differ from a
+	//      session root in what they have been given
+	for _, prog := range []string{"func() {x = 1}()", "f = func(n) {t = n; t}; f(1)", "x = 1; x++; x", "for i = 3 {y = i}; y", "A = 1; A", "zz = 1; del(zz)", "m = {}; m.a = 1; m", "f = func(..) {..}; f(1, 2)",
+		"g = func() {func() {q = 1}()}; g()", "f = func(A) {A}; f(1); A = 2", "r = func(n) {if n == 0 {return 0}; w = r(n - 1); w + 1}; r(3)", "a = [1, 2]; a[0] = 5; a", "k = 1; k := 2; k", "for kv = {1: 2} {z = kv.key}; z",
+		"f = func() {y2 = 5; y2}; f(); y2 = 1; f()", "c = catch(1 / 0); c.err", "println(1); 2", "info.globals", "self", "x = nil; x"} {
+		q := strconv.Quote(prog)
+		add("nested", "unjson("+q+")")
+		add("nested", "eval("+q+")")
+		add("nested", "f = func() {eval("+q+")}; f()")
+		add("nested", "m = macro(a) {"+prog+"; quote(unquote(a))}\nm(1)")
+		add("nested", "m = macro(a) {h = func() {"+prog+"}; h(); quote(unquote(a))}\nm(1)")
+		add("nested", `defun("nf", [], [`+q+`]); nf()`)
+		add("nested", "unjson("+strconv.Quote("unjson("+q+")")+")")
+	}
+	// 2g-x. a counted loop left in every way (error, failing operator, unknown name, break, return, continue at the last round)
+	//      while enclosing counted loops of the same scope go on: the failure absorbed by catch() / log() / an if, at two and
+	//      three levels, at top level and inside a function (what a loop holds on to has to be given back on every way out)
+	for _, exit := range []string{`error("x")`, "1 / 0", "undefined_name", "break", "return 7", "continue", "[1][5]", `nil + 1`} {
+		for _, absorb := range []string{"catch(LOOP)", "log(LOOP)", "r = catch(LOOP); if r.err {1}", "LOOP", "x = [LOOP]", "f2 = func() {LOOP}; catch(f2())"} {
+			inner := "for j = 2 {" + exit + "}"
+			inner3 := "for j = 2 {for k = 2 {" + exit + "}}"
+			for _, in := range []string{inner, inner3, "for j = 3 {if j == 1 {" + exit + "}}"} {
+				body := strings.ReplaceAll(absorb, "LOOP", in)
+				add("loopexit", "for i = 2 {"+body+"}; for a = 2 {for b = 2 {println(a, b)}}; println(catch(i), catch(j))")
+				add("loopexit", "f = func() {for i = 2 {"+body+"}; for a = 2 {println(a)}; 5}; println(catch(f())); for z = 2 {println(z)}")
+				add("loopexit", "for i = 2 {for h = 2 {"+body+"}; println(i)}")
+			}
 		}
 	}
 	// 2h. function literals whose body is only comments / comments and one statement / empty, in every literal form
